@@ -449,6 +449,13 @@ impl FramedReader {
         }
     }
 
+    /// Forget partially received data. Called when a new connection is established
+    /// so that bytes left over from the previous one are never parsed as part of it.
+    pub(crate) fn reset(&mut self) {
+        self.parser.reset();
+        self.buffer.clear();
+    }
+
     pub(crate) async fn next_frame(
         &mut self,
         io: &mut PhysLayer,
